@@ -142,6 +142,77 @@ func Transformers(p *core.Program) ([]*Transformer, *core.ResultInfo, error) {
 			out = append(out, t)
 		}
 	}
+	// a helper that waits for the result on behalf of its callers (result, ok := awaitResult(ctx, ch))
+	// answers a cancellation to its caller, not to the check's result channel: what the cancellation
+	// arm "answers" is what each caller makes of the helper's return on that path
+	byFn := map[*ssa.Function][]*Transformer{}
+	for _, t := range out {
+		byFn[t.Fn] = append(byFn[t.Fn], t)
+	}
+	for _, c := range out {
+		if c.Rc.Call == nil {
+			continue
+		}
+		h := c.Rc.Call.Call.StaticCallee()
+		for _, ht := range byFn[h] {
+			if ht.Rc.Sel == nil {
+				continue
+			}
+			ht.CtxArms = nil // judged in the callers
+			for i, st := range ht.Rc.Sel.States {
+				if i == ht.Rc.Arm || !core.IsCtxDone(st.Chan) {
+					continue
+				}
+				body := core.SelectArmBody(ht.Rc.Sel, i)
+				if body == nil {
+					continue
+				}
+				// the returns of that arm: value of the Result, constants of the other results
+				seenB := map[*ssa.BasicBlock]bool{}
+				var walk func(b *ssa.BasicBlock)
+				walk = func(b *ssa.BasicBlock) {
+					if seenB[b] || !body.Dominates(b) {
+						return
+					}
+					seenB[b] = true
+					if len(b.Instrs) > 0 {
+						if ret, ok := b.Instrs[len(b.Instrs)-1].(*ssa.Return); ok && len(ret.Results) > 0 {
+							oc, unk := ri.Run(core.Receive{Fn: h, Start: b, Head: ht.Rc.Head, Sel: ht.Rc.Sel, Arm: i}, core.AbsRes{})
+							c.Unknown = append(c.Unknown, unk...)
+							for _, o := range oc {
+								if o.Kind != "return" {
+									continue
+								}
+								rc2 := c.Rc
+								rc2.Flags = map[ssa.Value]int{}
+								if c.Rc.Call.Referrers() != nil {
+									for _, ref := range *c.Rc.Call.Referrers() {
+										ex, ok := ref.(*ssa.Extract)
+										if !ok || ex.Index == 0 || ex.Index >= len(ret.Results) {
+											continue
+										}
+										if k, ok := ret.Results[ex.Index].(*ssa.Const); ok && k.Value != nil && core.BoolType(k.Type()) {
+											rc2.Flags[ex] = 0
+											if k.Value.String() == "true" {
+												rc2.Flags[ex] = 1
+											}
+										}
+									}
+								}
+								oc2, unk2 := ri.Run(rc2, o.Val)
+								c.CtxArms = append(c.CtxArms, oc2)
+								c.Unknown = append(c.Unknown, unk2...)
+							}
+						}
+					}
+					for _, sc := range b.Succs {
+						walk(sc)
+					}
+				}
+				walk(body)
+			}
+		}
+	}
 	sort.Slice(out, func(i, j int) bool { return core.FuncName(out[i].Fn) < core.FuncName(out[j].Fn) })
 	return out, ri, nil
 }
